@@ -391,8 +391,9 @@ def rule_mapping_cycle(ctx: Ctx) -> RuleResult:
 def rule_command_else(ctx: Ctx) -> RuleResult:
     """`if self._command_map[key] == UP: ... else:  # down` treats every other key as the second command.  That
     is only right when each path to the dispatch has first restricted the key to the two commands (`not in {UP,
-    DOWN}` -> return, or `in {...}`).  The one path that may bypass the restriction is the false edge of
-    `self.selectable()`: keypress() is only ever called on a selectable widget."""
+    DOWN}` -> return, or `in {...}`).  No path is exempt: "keypress() is only called on selectable widgets" does not
+    make the false edge of `self.selectable()` dead, because containers cache that flag and it goes stale when a
+    nested container or placeholder changes (a failing input exists: see the fix eeb8a5a)."""
     from ..rules.exc import ExcEngine
 
     p = ctx.p
@@ -441,8 +442,6 @@ def rule_command_else(ctx: Ctx) -> RuleResult:
                         continue
                     if any(n is t and lab == l_ for t, l_ in cut):
                         continue  # restricted from here on
-                    if any(n is t for t, _l in contract) and lab == "F":
-                        continue  # not selectable: excluded by the calling convention
                     if m in seen:
                         continue
                     seen.add(m)
@@ -450,7 +449,7 @@ def rule_command_else(ctx: Ctx) -> RuleResult:
             bad = dn[0] in seen
             rr.inst(f"{short(fi)}:{norm(d.test, 50)}", True, {"dispatch": f"{short(fi)}: if {norm(d.test, 50)} ... else", "restricting_tests": [norm(t.ast, 60) for t, _ in cut], "contract_bypass": [norm(t.ast, 30) for t, _ in contract]})
             if bad:
-                rr.add(finding("EXHAUST", fi, d, f"`if {norm(d.test, 50)}: ... else:` can be reached with a key that was never restricted to the two commands (only a `{sn}.selectable()` test may bypass the restriction): any other key - 'x', 'enter', 'tab' - takes the else-arm, moves the focus and is swallowed", construct=f"unrestricted else-arm of {norm(d.test, 50)}"))
+                rr.add(finding("EXHAUST", fi, d, f"`if {norm(d.test, 50)}: ... else:` can be reached with a key that was never restricted to the two commands (every path, also the one on which the key was not offered to the child): any other key - 'x', 'enter', 'tab' - takes the else-arm, moves the focus and is swallowed", construct=f"unrestricted else-arm of {norm(d.test, 50)}"))
     return rr
 
 
@@ -580,8 +579,8 @@ MUTANTS = [
     Mut("walker-focus-clamp-off-by-one", "urwid/widget/listbox.py", "SimpleListWalker._modified", "if self.focus >= len(self):", "if self.focus > len(self):", "BOUND|widget.listbox.SimpleListWalker._modified"),
     Mut("twin-walker-focus-clamp-respelled", "urwid/widget/listbox.py", "SimpleListWalker._modified", "if self.focus >= len(self):", "if self.focus > len(self) - 1:", twin=True),
     Mut("gridflow-focus-cell-does-not-latch", "urwid/widget/grid_flow.py", "GridFlow.generate_display_widget", "            if (i == self.focus_position) or (not column_focused and w.selectable()):\n                c.focus_position = len(c.contents) - 1\n                column_focused = True\n            if i == self.focus_position:\n", "            if not column_focused and w.selectable():\n                c.focus_position = len(c.contents) - 1\n                column_focused = True\n            if i == self.focus_position:\n                c.focus_position = len(c.contents) - 1\n", "GUARD|widget.grid_flow.GridFlow.generate_display_widget"),
-    Mut("pile-offers-key-only-to-selectable-focus", "urwid/widget/pile.py", "Pile.keypress", "        if self.selectable():\n            key = self.focus.keypress(size_args[i], key)", "        if self.focus.selectable():\n            key = self.focus.keypress(size_args[i], key)", "EXHAUST|widget.pile.Pile.keypress"),
-    Mut("twin-pile-restriction-hoisted", "urwid/widget/pile.py", "Pile.keypress", "        if self.selectable():\n            key = self.focus.keypress(size_args[i], key)\n            if self._command_map[key] not in {Command.UP, Command.DOWN}:\n                return key\n", "        if self.focus.selectable():\n            key = self.focus.keypress(size_args[i], key)\n        if self._command_map[key] not in {Command.UP, Command.DOWN}:\n            return key\n", twin=True),
+    Mut("twin-pile-offer-guard-on-focus", "urwid/widget/pile.py", "Pile.keypress", "        if self.selectable():\n            key = self.focus.keypress(size_args[i], key)\n        if self._command_map[key] not in {Command.UP, Command.DOWN}:\n            return key\n", "        if self.focus.selectable():\n            key = self.focus.keypress(size_args[i], key)\n        if self._command_map[key] not in {Command.UP, Command.DOWN}:\n            return key\n", twin=True),
+    Mut("pile-restriction-nested-in-selectable", "urwid/widget/pile.py", "Pile.keypress", "            key = self.focus.keypress(size_args[i], key)\n        if self._command_map[key] not in {Command.UP, Command.DOWN}:\n            return key\n", "            key = self.focus.keypress(size_args[i], key)\n            if self._command_map[key] not in {Command.UP, Command.DOWN}:\n                return key\n", "EXHAUST|widget.pile.Pile.keypress"),
     Mut("command-map-copy-shares-dict", "urwid/command_map.py", "CommandMap.copy", "c._command = dict(self._command)", "c.__dict__.update(self.__dict__)", "FRESH|command_map.CommandMap.copy"),
     Mut("twin-command-map-copy-method", "urwid/command_map.py", "CommandMap.copy", "c._command = dict(self._command)", "c._command = self._command.copy()", twin=True),
     Mut("pile-setter-off-by-one", _P, None, "            if position < 0 or position >= len(self.contents):\n                raise IndexError(f\"No Pile child widget at position {position}\")", "            if position < 0 or position > len(self.contents):\n                raise IndexError(f\"No Pile child widget at position {position}\")", "GUARD|"),
